@@ -183,10 +183,24 @@ func c10Check(c c10Case) string {
 		seenRoot := map[string]bool{}
 		for _, v := range sres.Visits {
 			if v.Level == 1 {
-				if seenRoot[v.Name] {
-					dupRoot = true
+				if seenRoot[v.Name] || !model.ValidElem(v.Name) {
+					dupRoot = true // (or a root name that does not survive as the first path component)
 				}
 				seenRoot[v.Name] = true
+			} else if !model.ValidElem(v.Name) {
+				dupRoot = true // the root component of Path is not reliable: compare as multisets
+			}
+		}
+		if dupRoot {
+			gs = map[string][]string{"": nil}
+			gm = map[string][]string{"": nil}
+			for _, g := range []struct {
+				m  map[string][]string
+				vs []ops.Visit
+			}{{gs, sres.Visits}, {gm, mres.Visits}} {
+				for _, v := range g.vs {
+					g.m[""] = append(g.m[""], fmt.Sprintf("%s|%s|%d|%s|%v", v.Row, v.Branch, v.Level, v.Path, v.HasChild))
+				}
 			}
 		}
 		for r, rows := range gs {
@@ -348,10 +362,12 @@ func genSched(t *rapid.T) ops.Sched {
 func c10Gen() *rapid.Generator[c10Case] {
 	return rapid.Custom(func(t *rapid.T) c10Case {
 		op := rapid.SampledFrom(c10Ops).Draw(t, "op")
-		fsOp := op == "mkdir" || op == "verify" || op == "walk" || op == "dryrun"
+		fsOp := op == "mkdir" || op == "verify" || op == "dryrun"
 		var names *rapid.Generator[string]
 		if fsOp {
 			names = sampled(validElemPool())
+		} else if op == "walk" {
+			names = rapid.OneOf(sampled(validElemPool()), sampled(validElemPool()), sampled(poolHostilePathItems()), sampled(poolSyntax))
 		} else {
 			names = genNameMix(poolTiny, poolSyntax, poolUnicode, nil)
 		}
@@ -386,7 +402,7 @@ func c10Gen() *rapid.Generator[c10Case] {
 				f = append(f, r)
 			}
 		}
-		if fsOp && hasDupRoots(f) {
+		if (fsOp || op == "walk") && hasDupRoots(f) {
 			uniqRoots(f)
 		}
 		sp := genSpelling(f.HeadingOK()).Draw(t, "sp")
